@@ -95,7 +95,7 @@ CLAIMED.update({
               "every pair of twins agreeing on the observed entries and every sentinel (NaN, inf, huge) at masked entries; every "
               "3-entry vector (all masks, sentinels at masked entries, bool / int / float weights) is run through the real "
               "WeightedTensor operations and compared by TLC with the algebra (MaskingTrace.tla); specs/WTAlgebra.tla: 17 operators "
-              "(reflected ones, comparisons, negation, absolute value, square) x 5 operand kinds x every masking on real WeightedTensor "
+              "(reflected ones, comparisons, negation, absolute value, square) x 7 operand kinds (broadcasting ones included) x every masking on real WeightedTensor "
               "objects - the masking is carried by every operation, two different maskings are refused, aggregates of the result see "
               "observed entries only (WTAlgebraTrace.tla); twin-dataset scenarios on real models (masked values and padded ages overwritten, extra padded visits, 25 % missing entries incl. partially "
               "observed visits) must give equal attachment terms, sufficient statistics, counts, initial and fitted parameters "
